@@ -321,12 +321,24 @@ REQS_CALL = [
     ('location', 'from mcall import g\ng().foo\n', (2, 7)),
 ]
 CYC_A = 'from cycb import *\nclass A(object):\n    def am(self): pass\n'
-CYC_B = 'from cyca import *\nclass B(object):\n    def bm(self): pass\n'
+CYC_B = 'from cyca import *\nfrom cycleaf import *\nclass B(object):\n    def bm(self): pass\n'
+CYC_LEAF = 'class Leaf(object):\n    def lm(self): pass\n'
+# a cycle of three, two of its members importing a module outside the cycle AFTER the import that closes the cycle
+CYC3 = {'cyc3a': 'from cyc3b import *\nfrom cycleaf import *\nclass A3(object): pass\n',
+        'cyc3b': 'from cyc3c import *\nfrom cycleaf import *\nclass B3(object): pass\n',
+        'cyc3c': 'from cyc3a import *\nclass C3(object): pass\n'}
+REQS_CYCLE3 = [
+    ('assist', 'import cyc3a\ncyc3a.', (2, 6)),
+    ('assist', 'import cyc3b\ncyc3b.', (2, 6)),
+    ('assist', 'import cyc3c\ncyc3c.', (2, 6)),
+    ('lint', 'from cyc3b import *\nprint(A3, B3, C3, Leaf)\n', None),
+]
 REQS_CYCLE = [
     ('assist', 'import cyca\ncyca.', (2, 5)),
     ('assist', 'import cycb\ncycb.', (2, 5)),
     ('lint', 'from cycb import *\nprint(A, B)\n', None),
-    ('lint', 'from cyca import *\nprint(A, B)\n', None),
+    ('lint', 'from cyca import *\nprint(A, B, Leaf)\n', None),
+    ('location', 'from cycb import Leaf\nLeaf\n', (2, 4)),
 ]
 
 
@@ -334,7 +346,7 @@ def project_search(part, which='loop'):
     import tempfile
     import shutil
     out = []
-    REQS = {'loop': REQS_LOOP, 'cls': REQS_CLS, 'assign': REQS_ASSIGN, 'cycle': REQS_CYCLE, 'call': REQS_CALL}[which]
+    REQS = {'loop': REQS_LOOP, 'cls': REQS_CLS, 'assign': REQS_ASSIGN, 'cycle': REQS_CYCLE, 'call': REQS_CALL, 'cycle3': REQS_CYCLE3}[which]
     root = tempfile.mkdtemp(prefix='c04proj')
     try:
         open(os.path.join(root, 'mloop.py'), 'w').write(MLOOP)
@@ -343,6 +355,9 @@ def project_search(part, which='loop'):
         open(os.path.join(root, 'mcall.py'), 'w').write(MCALL)
         open(os.path.join(root, 'cyca.py'), 'w').write(CYC_A)
         open(os.path.join(root, 'cycb.py'), 'w').write(CYC_B)
+        open(os.path.join(root, 'cycleaf.py'), 'w').write(CYC_LEAF)
+        for k, v in CYC3.items():
+            open(os.path.join(root, k + '.py'), 'w').write(v)
         shutil.copy(os.path.join(nc.PROJECT_DIR, 'm2.py'), root)
         x = os.path.join(root, 'x.py')
 
@@ -572,7 +587,7 @@ def run(ctx):
     units += [(unit_progs, (ctx.tier, lo, min(len(sp), lo + 2))) for lo in range(cheap, len(sp), 2)]
     units += [(unit_text, (t, 2 if ctx.quick else 3)) for t in CYCLIC]
     units += [(unit_file, f) for f in sorted(set(repo_files(ctx.tier)))]
-    units += [(unit_project, 'loop'), (unit_project, 'cls'), (unit_project, 'assign'), (unit_project, 'cycle'), (unit_project, 'call')]
+    units += [(unit_project, 'loop'), (unit_project, 'cls'), (unit_project, 'assign'), (unit_project, 'cycle'), (unit_project, 'call'), (unit_project, 'cycle3')]
     ctx.pmap(_dispatch, ctx.shuffled(units), chunksize=1)
     c = ctx.counters
     ex = sp[len(sp) // 2]
